@@ -21,13 +21,4 @@ def resolve (p : Str) : List Str := (splitOn cSlash p).foldl step []
 /-- `q` is `root` itself or lies below it -/
 def inside (root q : Str) : Bool := (resolve root).isPrefixOf (resolve q)
 
-/-- a redirect target that stays on this site: an absolute path whose second character is neither
-`/` nor `\` (so it is neither protocol-relative nor scheme-qualified) -/
-def sameSite (loc : Str) : Bool :=
-  match loc with
-  | 47 :: 47 :: _ => false
-  | 47 :: 92 :: _ => false
-  | 47 :: _ => true
-  | _ => false
-
 end TornadoModel.C26.Spec
